@@ -261,11 +261,14 @@ def handlePyq (tts dump : String) : String × String :=
     let n := tt.length
     let times := (tt.flatMap fun t => [t - 1, t, t + 1]) ++ [0, (tt.getLast?.getD 0) + 10]
     let times := times.foldl (fun acc t => if acc.contains t then acc else acc ++ [t]) []
+    -- TimeTable.__getitem__: the four corner indices, every index from −n−3 to n+2, and far ones
+    let ttIdxs : List Int := [-1, 0, (n : Int), -(n : Int)] ++ (List.range (2 * n + 6)).map (fun (k : Nat) => (Int.ofNat k) - (Int.ofNat n) - 3) ++
+      [-2 * (n : Int) - 7, -1000000, 1000000]
     let mk := fun (ac : List (Nat × Nat)) (vi : Nat → Option Nat) (vt : Nat → Option Nat) =>
       "AC=" ++ ",".intercalate (ac.map fun (t, p) => s!"{t}:{showV (some p)}") ++
       ";VI=" ++ ",".intercalate ((List.range (n + 2)).map fun i => showV (vi i)) ++
       ";VT=" ++ ",".intercalate (times.map fun t => s!"{t}:{showV (vt t)}") ++
-      ";TT=" ++ optNatStr (ttGetItem tt (-1)) ++ "," ++ optNatStr (ttGetItem tt 0) ++ "," ++ optNatStr (ttGetItem tt n) ++ "," ++ optNatStr (ttGetItem tt (-(n : Int)))
+      ";TT=" ++ ",".intercalate (ttIdxs.map fun i => optNatStr (ttGetItem tt i))
     let m := mk (allChanges tt arr) (valueAtIdx arr) (valueAtTime tt arr)
     let specAc := (List.range idxs.length).filterMap fun p => (tt[idxs.getD p 0]?).map fun t => (t, p)
     let sp := mk specAc (latestPos idxs) (specValueAtTime tt idxs)
